@@ -557,6 +557,26 @@ Definition dwrite (d : dest) (chunk : bytes) : dest * N * bool :=
         end
   end.
 
+(* A third kind of destination: the Write that crosses the budget takes ALL its
+   bytes and still reports an error (n = len(p), err != nil: a tee whose mirror
+   filled up, a deferred error). *)
+Definition dwrite_full (d : dest) (chunk : bytes) : dest * N * bool :=
+  match d_budget d with
+  | None => ({| d_acc := d_acc d ++ chunk; d_budget := None; d_mode := d_mode d |}, lenN chunk, true)
+  | Some k =>
+      if lenN chunk <=? k then
+        ({| d_acc := d_acc d ++ chunk; d_budget := Some (k - lenN chunk); d_mode := d_mode d |},
+         lenN chunk, true)
+      else ({| d_acc := d_acc d ++ chunk; d_budget := Some 0; d_mode := d_mode d |}, lenN chunk, false)
+  end.
+Fixpoint run_writes_full (cs : list bytes) (d : dest) (count : N) : dest * N * bool :=
+  match cs with
+  | [] => (d, count, true)
+  | c :: t =>
+      let '(d', n, ok) := dwrite_full d c in
+      if ok then run_writes_full t d' (count + n) else (d', count + n, false)
+  end.
+
 (* run a sequence of Write calls, stopping at the first failure:
    (destination, bytes counted, success) *)
 Fixpoint run_writes (cs : list bytes) (d : dest) (count : N) : dest * N * bool :=
